@@ -15,7 +15,7 @@ RULE = ("(a) zone conversions: sequences of 2..60 instants per zone (same range 
         "files) through `dconv --zone Z` / `--from-zone Z` on stdin and as arguments; oracle: the "
         "output of the run on the whole sequence equals the concatenation of one run per instant. "
         "(b) tools that treat inputs independently (dconv with -i/-f/--zone, dadd DUR, dround SPEC, "
-        "ddiff REF, dgrep EXPR, dzone matrix; argument form, stdin form, -S, -E, -q): lists of "
+        "ddiff REF (stdin form and several operands on the command line), dgrep EXPR, dzone matrix; argument form, stdin form, -S, -E, -q): lists of "
         "2..40 inputs (occasionally 300..600 to cross the 255-step counter in lib/strops.c) mixing "
         "kinds on purpose (calendars, times, date-times, epochs, unparsable strings, empty lines, "
         "values that need a fix-up); same oracle, plus permuted inputs permute the output. "
@@ -260,6 +260,12 @@ CATALOGUE = [
     ("ddiff", ["2012-03-04T12:00:00", "-f", "ymd"], ("stdin",)),
     ("ddiff", ["2012-03-04T12:00:00", "-f", "ywd"], ("stdin",)),
     ("ddiff", ["2012-03-04T12:00:00", "-f", "yd"], ("stdin",)),
+    # ddiff with several operands on the command line: each is judged against the reference alone
+    # (date-only operands among date-times: the guessed duration type belongs to the operand)
+    ("ddiff", ["2012-03-04T12:00:00"], ("args", "stdin")),
+    ("ddiff", ["2012-03-04T12:00:00", "-f", "%H:%M:%S"], ("args", "stdin")),
+    ("ddiff", ["2012-03-04"], ("args",)),
+    ("ddiff", ["2012-03-04T12:00:00", "-f", "%d %H:%M:%S"], ("args",)),
     # a date on the command line, one duration per line on stdin
     ("dadd", ["2012-03-31"], ("stdin",), "durs"),
     ("dadd", ["2012-01-31T22:30:00", "-f", "%FT%T"], ("stdin",), "durs"),
